@@ -42,7 +42,8 @@ from .storage import diff
 ALIASES = {'Append_': 'Append', 'PackAtTid': 'Pack'}
 CHAIN_START = ('TpcBegin', 'UBegin')
 CHAIN_END = ('Finish', 'TpcAbort')
-EDITS = ('CreateBlob', 'Rewrite', 'Append', 'ConsumeFile', 'ConsumeFail', 'ModifyP', 'OpenWrite', 'OpenRead')
+EDITS = ('CreateBlob', 'Rewrite', 'Append', 'ConsumeFile', 'ConsumeFail', 'ModifyP', 'OpenWrite', 'OpenRead', 'Unlink',
+         'Relink')
 ALL_ACTIONS = EDITS + ('Savepoint', 'Rollback', 'AbortTxn', 'TpcBegin', 'StoreOK', 'StoreFail', 'Vote', 'Finish',
                        'ConnAbort', 'TpcAbort', 'OtherCommit', 'UBegin', 'UStoreOK', 'UStoreFail', 'Pack',
                        'Wrong', 'OtherAbort', 'OtherFinish', 'Late', 'UStoreCopyFail', 'CloseAll', 'Boundary', 'StoreFault', 'PackDuring')
@@ -108,7 +109,8 @@ class Probe:
             self.caps[phase] = self.rp.project(self.states.get(phase) or self.states['any'], 'last')
             for k, st in self.inline.get(phase, ()):
                 got = self.rp.step(st['name'], st['args'], None, st['state'])
-                self.iout[k] = (got, st['state']['res']['out'])
+                want = st['state']['res']['out']
+                self.iout[k] = (got, 'ok' if st['name'] == 'PackDuring' and want in PACK_OK else want)
                 self.icaps[k] = self.rp.project(st['state'], 'last')
         if self.fail_at == phase:
             raise ProbeFailure(phase)
@@ -311,11 +313,13 @@ class BlobReplayer:
         try:
             with b.open('r') as f:
                 return hashlib.md5(f.read()).hexdigest()
-        except (POSKeyError, KeyError):
-            return 'lost'
+        except (POSKeyError, KeyError) as ex:
+            # (a ghost from the connection's cache is only loaded now: no record = absent; record without file = lost)
+            return 'lost' if 'No blob file' in str(ex) else 'absent'
 
     def _read_row(self, conn):
         from ZODB.POSException import POSKeyError
+        conn.cacheMinimize()          # (pooled connections: read the storage, not what an earlier read left in the cache)
         row = {}
         try:
             row[P_OID] = conn.get(p64(P_OID)).v
@@ -487,6 +491,10 @@ class BlobReplayer:
                 with open(path, 'wb') as f:
                     f.write(self.data((x,)))
                 self.handle(b).consumeFile(path)
+            elif a == 'Unlink':
+                del self.c1.root()['b%d' % args[0]]
+            elif a == 'Relink':
+                self.c1.root()['b%d' % args[0]] = self.handle(args[0])
             elif a == 'OpenWrite':
                 f = self.handle(args[0]).open('w')
                 self.files[args[0]] = ('w', f)
@@ -678,7 +686,7 @@ class BlobReplayer:
         def chmod(path, mode):
             state['n'] += 1
             if state['n'] == 1:
-                raise OSError(errno.EPERM, 'injected fault (zv C13)')
+                raise OSError(errno.EIO, 'injected fault (zv C13)')
             return os.chmod(path, mode)
         faultfs.PROXY.chmod = chmod
         self._chmod_armed = True
@@ -817,11 +825,12 @@ PACK_OK = ('ok', 'redundant', 'nothing-freed', 'same-time', 'empty')
 
 def consts(flavour, NBlob=2, Atoms=('a', 'b'), MaxLen=2, MaxTid=7, MaxSp=2, KeepOld=False,
            AbortNeedsVote=True, NonUndoPack=True, SpbPerSerial=True, ForeignAbortCleans=True, LateBookkeeping=True,
-           CopyFailUntracked=True, StoreFaultUntracked=True, PackIgnoresInFlight=True):
+           CopyFailUntracked=True, StoreFaultUntracked=True, PackIgnoresInFlight=True, StoreFailLeaks=True, UndoTempLeaks=True, PackWipesOidDir=True):
     return dict(Flavour=flavour, NBlob=NBlob, Atoms=tuple(Atoms), MaxLen=MaxLen, MaxTid=MaxTid, MaxSp=MaxSp,
                 KeepOld=KeepOld, AbortNeedsVote=AbortNeedsVote, NonUndoPack=NonUndoPack, SpbPerSerial=SpbPerSerial,
                 ForeignAbortCleans=ForeignAbortCleans, LateBookkeeping=LateBookkeeping, CopyFailUntracked=CopyFailUntracked,
-                StoreFaultUntracked=StoreFaultUntracked, PackIgnoresInFlight=PackIgnoresInFlight)
+                StoreFaultUntracked=StoreFaultUntracked, PackIgnoresInFlight=PackIgnoresInFlight, StoreFailLeaks=StoreFailLeaks,
+                UndoTempLeaks=UndoTempLeaks, PackWipesOidDir=PackWipesOidDir)
 
 
 def tla_consts(c):
@@ -833,7 +842,9 @@ def tla_consts(c):
             'AbortNeedsVote': b(c['AbortNeedsVote']), 'NonUndoPack': b(c['NonUndoPack']),
             'SpbPerSerial': b(c['SpbPerSerial']), 'ForeignAbortCleans': b(c.get('ForeignAbortCleans', True)),
             'LateBookkeeping': b(c.get('LateBookkeeping', True)), 'CopyFailUntracked': b(c.get('CopyFailUntracked', True)),
-            'StoreFaultUntracked': b(c.get('StoreFaultUntracked', True)), 'PackIgnoresInFlight': b(c.get('PackIgnoresInFlight', True))}
+            'StoreFaultUntracked': b(c.get('StoreFaultUntracked', True)), 'PackIgnoresInFlight': b(c.get('PackIgnoresInFlight', True)),
+            'StoreFailLeaks': b(c.get('StoreFailLeaks', True)), 'UndoTempLeaks': b(c.get('UndoTempLeaks', True)),
+            'PackWipesOidDir': b(c.get('PackWipesOidDir', True))}
 
 
 def load_behaviour(beh, atoms=('a',)):
